@@ -270,11 +270,88 @@ def p_pow(a, e):
         for _ in range(int(e) - 1):
             out = p_had(out, a)
         return out
+    if len(a) > 1:
+        # content: (c * x * q) ** e = c ** e * x ** e * q ** e for the factors common to every monomial
+        common = None
+        for (s, chain), k in a:
+            ds = dict(s)
+            common = ds if common is None else {x: min(ex, common[x]) for x, ex in ds.items() if x in common and (ex > 0) == (common[x] > 0)}
+        common = {x: ex for x, ex in (common or {}).items() if ex != 0}
+        ks = [k for _, k in a]
+        from math import gcd
+
+        num = 0
+        den = 1
+        for k in ks:
+            num = gcd(num, abs(Fraction(k).numerator))
+            den = den * Fraction(k).denominator // gcd(den, Fraction(k).denominator)
+        # every k = n_k/d_k; common rational factor = gcd(n_k * den/d_k)/den
+        nn = 0
+        for k in ks:
+            nn = gcd(nn, abs(int(Fraction(k) * den)))
+        content = Fraction(nn, den) if nn else Fraction(1)
+        ck = _rat_pow(content, e)
+        if ck is None:
+            content, ck = Fraction(1), Fraction(1)
+        if common or content != 1:
+            d = {}
+            for (s, chain), k in a:
+                ds = dict(s)
+                for x, ex in common.items():
+                    ds[x] = ds[x] - ex
+                s2 = frozenset((x, ex) for x, ex in ds.items() if ex != 0)
+                d[(s2, chain)] = Fraction(k) / content
+            rest = _mk(d)
+            fac = frozenset([((frozenset((x, ex * e) for x, ex in common.items()), ()), ck)])
+            return p_had(fac, p_pow(rest, e))
     scalar = all(not chain for (s, chain), k in a)
     atom = A("poly", a)
     if scalar:
         return frozenset([((frozenset([(atom, e)]), ()), ONE)])
     return frozenset([((EMPTY_S, (A("had", frozenset([(atom, e)])),)), ONE)])
+
+
+_MENTION_CACHE = {}
+
+
+def _mentions(x, target):
+    """does the node / poly / tuple structure contain the node `target`"""
+    if x is target:
+        return True
+    if isinstance(x, Node):
+        key = (id(x), id(target))
+        r = _MENTION_CACHE.get(key)
+        if r is None:
+            r = any(_mentions(k, target) for k in x.kids)
+            _MENTION_CACHE[key] = r
+        return r
+    if isinstance(x, (tuple, frozenset)):
+        return any(_mentions(k, target) for k in x)
+    return False
+
+
+def _split_content(p, invariant):
+    """p = fac * rest with fac the product of the scalar factors (and the rational content)
+    common to every monomial of p that satisfy `invariant`"""
+    if not p:
+        return P_const(1), p
+    common = None
+    for (s, chain), k in p:
+        ds = {x: ex for x, ex in s if invariant(x)}
+        common = ds if common is None else {x: (min(ex, common[x]) if ex > 0 else max(ex, common[x])) for x, ex in ds.items() if x in common and (ex > 0) == (common[x] > 0)}
+    common = {x: ex for x, ex in (common or {}).items() if ex != 0}
+    content = Fraction(1)
+    if len(p) == 1:
+        content = Fraction(next(iter(p))[1])
+    if not common and content == 1:
+        return P_const(1), p
+    d = {}
+    for (s, chain), k in p:
+        ds = dict(s)
+        for x, ex in common.items():
+            ds[x] = ds[x] - ex
+        d[(frozenset((x, ex) for x, ex in ds.items() if ex != 0), chain)] = Fraction(k) / content
+    return frozenset([((frozenset(common.items()), ()), content)]), _mk(d)
 
 
 SYMMETRIC_OPS = {"eye", "dg", "zeros"}
@@ -588,6 +665,19 @@ class Normalizer:
                 if v2 is not None:
                     return P_atom(A("where3", fi, wrap(self.nf(v2)), wrap(self.nf(base))))
             return P_atom(A("store", wrap(self.nf(base)), fi, wrap(self.nf(val))))
+        if op == "comp" and len(a) >= 3 and isinstance(a[2], Term):
+            # [k * e(x) for x in xs] = k * [e(x) for x in xs] for a factor k that does not vary with x
+            pe = self.nf(a[2])
+            lvn = self.freeze(Term("lv", a[0]))
+            fac, rest = _split_content(pe, lambda n: not _mentions(n, lvn))
+            node = A("comp", a[0], self.freeze(a[1]), wrap(rest), *[self.freeze(x) for x in a[3:]])
+            return p_had(fac, P_atom(node))
+        if op == "stack" and len(a) == 2 and isinstance(a[1], Term):
+            pl = self.nf(a[1])
+            if len(pl) == 1:
+                ((s, chain), k), = pl
+                if len(chain) == 1 and (s or k != 1):
+                    return frozenset([((s, (A("stack", self.freeze(a[0]), chain[0]),)), k)])
         if op == "unk":
             return P_atom(A("unk", a[0], a[1]))
         if op == "count" and len(a) == 1 and isinstance(a[0], Term) and a[0].op in ("gt", "lt", "ge", "le") and len(a[0].args) == 2:
@@ -725,6 +815,12 @@ class Normalizer:
         has_w = any(isinstance(r, tuple) and r and r[0] == "weights" for r in rest)
         if op == "average" and not has_w:
             op = "mean"
+        nn = [x for x in a[1:] if isinstance(x, tuple) and x and x[0] == "n"]
+        if nn:
+            rest = tuple(r for r in rest if not (isinstance(r, tuple) and r and r[0] == "n"))
+            if op == "mean":
+                # mean = sum / extent
+                return p_had(self.linear_reduce("sum", (None,) + tuple(x for x in a[1:] if x not in nn), cyclic, inner), p_pow(self.scalar(nn[0][1]), -1))
         has_axis = any(isinstance(r, tuple) and r and r[0] == "axis" for r in rest)
         out = ZERO
         for (s, chain), k in inner:
@@ -733,6 +829,8 @@ class Normalizer:
                 tchain = tuple(t_atom(x, self.symmetric) for x in reversed(chain))
                 rots += [tchain[i:] + tchain[:i] for i in range(len(tchain))]
                 chain = min(rots, key=lambda c: tuple(id(x) for x in c))
+            if op == "sum" and not has_axis and not rest and len(chain) == 1 and chain[0].op == "sum" and all(isinstance(r, tuple) and r and r[0] == "axis" for r in chain[0].kids[1:]):
+                chain = (chain[0].kids[0],)  # the total of partial sums is the total
             atom = A(op, chain_atom(chain) if chain else A("one"), *rest)
             if cyclic or not has_axis:
                 m = (_merge_s(s, frozenset([(atom, ONE)])), ())
@@ -810,3 +908,87 @@ def show_poly(p, depth=0):
             ks = str(k) if k.denominator < 1000 else repr(float(k))
             parts.append(f"{ks}·{body}" if fs else ks)
     return " + ".join(sorted(parts)).replace("+ -", "- ")
+
+
+# ---------------------------------------------------------------------------
+# structural difference of two normal forms: the smallest sub-structures that differ
+# ---------------------------------------------------------------------------
+
+
+def nf_diff(a, b, limit=12):
+    """list of (a_sub, b_sub) pairs: maximal common context stripped away"""
+    sites = []
+    seen = set()
+
+    def is_poly(x):
+        return isinstance(x, frozenset) and all(isinstance(m, tuple) and len(m) == 2 and isinstance(m[0], tuple) for m in x) if x else isinstance(x, frozenset)
+
+    def add(x, y):
+        key = (id(x) if isinstance(x, Node) else x, id(y) if isinstance(y, Node) else y)
+        try:
+            if key in seen:
+                return
+            seen.add(key)
+        except TypeError:
+            pass
+        if len(sites) < limit:
+            sites.append((x, y))
+
+    def rec(x, y):
+        if x is y or x == y:
+            return
+        if isinstance(x, Node) and isinstance(y, Node):
+            if x.op == y.op and len(x.kids) == len(y.kids) and x.op not in ("sym", "const", "size"):
+                for p, q in zip(x.kids, y.kids):
+                    rec(p, q)
+                return
+            add(x, y)
+            return
+        if is_poly(x) and is_poly(y) and (x or y):
+            dx, dy = dict(x), dict(y)
+            common = [m for m in dx if m in dy and dx[m] == dy[m]]
+            rx = {m: k for m, k in dx.items() if m not in common}
+            ry = {m: k for m, k in dy.items() if m not in common}
+            if len(rx) == 1 and len(ry) == 1:
+                (mx, kx), = rx.items()
+                (my, ky), = ry.items()
+                (sx, cx), (sy, cy) = mx, my
+                if kx == ky and len(cx) == len(cy) and (sx == sy or (len(sx) == len(sy) == 1)) and sum(1 for p, q in zip(cx, cy) if p is not q) <= 1 + (0 if sx == sy else -1) + 1:
+                    if sx != sy:
+                        (fx, ex), = sx
+                        (fy, ey), = sy
+                        if ex == ey:
+                            rec(fx, fy)
+                        else:
+                            add(frozenset([((sx, ()), Fraction(1))]), frozenset([((sy, ()), Fraction(1))]))
+                    for p, q in zip(cx, cy):
+                        rec(p, q)
+                    return
+            add(frozenset(rx.items()), frozenset(ry.items()))
+            return
+        if isinstance(x, tuple) and isinstance(y, tuple) and len(x) == len(y):
+            for p, q in zip(x, y):
+                rec(p, q)
+            return
+        if isinstance(x, frozenset) and isinstance(y, frozenset) and not is_poly(x):
+            # had-factor sets {(atom, exp)}
+            cx, cy = x - y, y - x
+            if len(cx) == 1 and len(cy) == 1:
+                (fx, ex), = cx
+                (fy, ey), = cy
+                if ex == ey:
+                    rec(fx, fy)
+                    return
+            add(cx, cy)
+            return
+        add(x, y)
+
+    rec(a, b)
+    return sites
+
+
+def show_diff(a, b, limit=4, width=260):
+    out = []
+    for x, y in nf_diff(a, b)[:limit]:
+        out.append(f"[{show_any(x)[:width]}]  vs  [{show_any(y)[:width]}]")
+    return out
